@@ -235,7 +235,20 @@ pub fn garbage_text() -> BoxedStrategy<String> {
 /// multi-line / multi-byte prefixes in front of failing inputs
 pub fn multiline_text() -> BoxedStrategy<String> {
     let pieces = vec!["\n", "\r\n", "é", "💥", " ", "\t", "1.2.3", "1.2", "v", "x", "1.", "-", "+", "a", "\u{161}", "900719925474100", "99999999999999999999", "||", ">="];
-    proptest::collection::vec(select(pieces), 1..10).prop_map(|v| v.concat()).boxed()
+    let short = proptest::collection::vec(select(pieces.clone()), 1..10).prop_map(|v| v.concat());
+    // over-long multi-line inputs: the only errors whose offset lies behind a newline
+    let long = (proptest::collection::vec(select(pieces), 3..12), 20usize..120, select(vec!["", "z", "\n", "é", "💥", "\n\n", " "]))
+        .prop_map(|(v, reps, tail)| {
+            let unit = v.concat();
+            let mut s = String::new();
+            while s.len() < 200 + reps {
+                s.push_str(&unit);
+                s.push_str("1.2.3-abcdefgh");
+            }
+            s.push_str(tail);
+            s
+        });
+    prop_oneof![3 => short, 1 => long].boxed()
 }
 
 pub fn run(cfg: &RunCfg) -> PropRun {
